@@ -169,6 +169,81 @@ func runC28(c *Ctx) {
 			}
 			c.Report(gf, key+" flows into the hash", gf.Pos(), read[f.Name()], "field is not read by "+g.Name()+"() or the own methods it calls")
 		}
+		// every component of a pair-valued field is hashed; no field is replaced by a constant on some path
+		for _, fn := range c.ownClosure(t, gf) {
+			for _, in := range allInstrs(fn) {
+				switch x := in.(type) {
+				case *ssa.Phi:
+					var fld string
+					hasConst := false
+					for _, e := range x.Edges {
+						v := e
+						for {
+							if mi, ok := v.(*ssa.MakeInterface); ok {
+								v = mi.X
+								continue
+							}
+							if ci, ok := v.(*ssa.ChangeInterface); ok {
+								v = ci.X
+								continue
+							}
+							break
+						}
+						if k, ok := v.(*ssa.Const); ok && (k.IsNil() || k.Value != nil) {
+							hasConst = true
+						}
+						for fname := range c.tFieldsInDirect(t, v) {
+							fld = fname
+						}
+					}
+					if fld != "" && hasConst && !isLoopCounter(x) {
+						c.Report(fn, tn+"."+fld+" is hashed unconditionally", c.InstrPos(firstNonPhi(x.Block())), false, "on some path a constant takes the place of the field: "+c.D(x))
+					}
+				}
+			}
+		}
+		for i := 0; i < st.NumFields(); i++ {
+			f := st.Field(i)
+			sl, ok := f.Type().Underlying().(*types.Slice)
+			if !ok {
+				continue
+			}
+			arr, ok := sl.Elem().Underlying().(*types.Array)
+			if !ok || arr.Len() > 4 {
+				continue
+			}
+			seen := map[int64]bool{}
+			for _, fn := range c.ownClosure(t, gf) {
+				for _, in := range allInstrs(fn) {
+					var idx ssa.Value
+					var base ssa.Value
+					switch x := in.(type) {
+					case *ssa.IndexAddr:
+						if pt, ok := x.X.Type().Underlying().(*types.Pointer); ok {
+							if a, ok := pt.Elem().Underlying().(*types.Array); ok && a.Len() == arr.Len() {
+								idx, base = x.Index, x.X
+							}
+						}
+					case *ssa.Index:
+						if a, ok := x.X.Type().Underlying().(*types.Array); ok && a.Len() == arr.Len() {
+							idx, base = x.Index, x.X
+						}
+					}
+					if idx == nil {
+						continue
+					}
+					if !c.tFieldsIn(t, base)[f.Name()] {
+						continue
+					}
+					if k, ok := constInt(idx); ok {
+						seen[int64(k)] = true
+					}
+				}
+			}
+			for k := int64(0); k < arr.Len(); k++ {
+				c.Report(gf, fmt.Sprintf("%s.%s: component %d of every element flows into the hash", tn, f.Name(), k), gf.Pos(), seen[k], "")
+			}
+		}
 	}
 	// signs: every field is in the message, or is the verifying key / the signature
 	if t := c.NamedType("base", "BaseSign"); t != nil {
@@ -366,4 +441,83 @@ func isHashItself(f *types.Var) bool {
 		return true
 	}
 	return false
+}
+
+// ownClosure: fn, its closures, and the own methods of t it calls (transitively, depth 3).
+func (c *Ctx) ownClosure(t *types.Named, fn *ssa.Function) []*ssa.Function {
+	var out []*ssa.Function
+	seen := map[*ssa.Function]bool{}
+	var visit func(f *ssa.Function, d int)
+	visit = func(f *ssa.Function, d int) {
+		if f == nil || seen[f] || d > 3 {
+			return
+		}
+		seen[f] = true
+		for _, g := range WithClosures(f) {
+			out = append(out, g)
+			for _, in := range allInstrs(g) {
+				// direct calls and method values (util.DummyByter(fact.baseBallotFact.hashBytes))
+				var ops []*ssa.Value
+				for _, o := range in.Operands(ops) {
+					var cal *ssa.Function
+					switch y := (*o).(type) {
+					case *ssa.Function:
+						cal = y
+					case *ssa.MakeClosure:
+						cal, _ = y.Fn.(*ssa.Function)
+					}
+					if cal == nil {
+						continue
+					}
+					if cal.Synthetic != "" && strings.Contains(cal.Synthetic, "bound method") {
+						if m, ok := cal.Object().(*types.Func); ok {
+							if real := c.SSA.FuncValue(m); real != nil {
+								cal = real
+							}
+						}
+					}
+					if cal.Blocks != nil && cal.Signature.Recv() != nil && c.inTree(cal.Pkg.Pkg) {
+						visit(cal, d+1)
+					}
+				}
+			}
+		}
+	}
+	visit(fn, 0)
+	return out
+}
+
+// tFieldsInDirect: v is (a load of) a field of t, possibly through an embedded chain.
+func (c *Ctx) tFieldsInDirect(t *types.Named, v ssa.Value) map[string]bool {
+	out := map[string]bool{}
+	st := t.Underlying().(*types.Struct)
+	isT := func(x types.Type) bool {
+		n, ok := derefNamed(x).(*types.Named)
+		return ok && n.Obj() == t.Obj()
+	}
+	switch y := v.(type) {
+	case *ssa.UnOp:
+		if fa, ok := y.X.(*ssa.FieldAddr); ok && isT(fa.X.Type()) {
+			out[st.Field(fa.Field).Name()] = true
+		}
+	case *ssa.Field:
+		if isT(y.X.Type()) {
+			out[st.Field(y.Field).Name()] = true
+		}
+	}
+	return out
+}
+
+func isLoopCounter(p *ssa.Phi) bool {
+	b, ok := p.Type().Underlying().(*types.Basic)
+	return ok && b.Info()&types.IsInteger != 0
+}
+
+func firstNonPhi(b *ssa.BasicBlock) ssa.Instruction {
+	for _, in := range b.Instrs {
+		if _, ok := in.(*ssa.Phi); !ok {
+			return in
+		}
+	}
+	return b.Instrs[0]
 }
